@@ -136,6 +136,16 @@ MUTANTS = [
      "            return torch.where(self.criterion(obs), 0, state + self.dt).to(", "            return torch.where(self.criterion(obs), 0, state + 1.0).to("),
     ("kernel_pre_uses_post_kwargs", "C18", 800, "inferno/learn/trainers/kernel_stdp.py",
      "            dpre = state.kernel_pre(\n                t_delta,\n                **(\n                    state.kernel_pre_kwargs", "            dpre = state.kernel_pre(\n                t_delta,\n                **(\n                    state.kernel_post_kwargs", 1),
+    ("recurrent_clear_keeps_feedback", "C17", 1500, "inferno/neural/network.py",
+     "        if clear_feedback:\n            self.feedback_spikes = None", "        if clear_feedback and self.training:\n            self.feedback_spikes = None"),
+    ("recurrent_feedback_same_step", "C17", 1500, "inferno/neural/network.py",
+     "        # update recurrent spikes\n        self.feedback_spikes = self.get_neuron(self.__feedback_neuron_name).spike", "        # update recurrent spikes\n        self.feedback_spikes = self.get_neuron(self.__feedfwd_neuron_name).spike if self.get_neuron(self.__feedfwd_neuron_name).spike.shape == self.get_neuron(self.__feedback_neuron_name).spike.shape else self.get_neuron(self.__feedback_neuron_name).spike"),
+    ("biclique_post_input_shared", "C17", 1500, "inferno/neural/network.py",
+     "                    {k: self.post_input[k](v) for k, v in inputs.items()}, **kwargs", "                    {k: self.post_input[next(iter(inputs))](v) for k, v in inputs.items()}, **kwargs"),
+    ("connection_clear_skips_synapse_when_no_updater", "C17", 1500, "inferno/neural/base.py",
+     "        Updatable.clear(self, **kwargs)\n        self.synapse.clear(**kwargs)", "        Updatable.clear(self, **kwargs)\n        if self.updatable or self.delayedby is None:\n            self.synapse.clear(**kwargs)"),
+    ("serial_capture_returns_transformed", "C17", 1500, "inferno/neural/network.py",
+     "            return (outputs, res)", "            return (outputs, self.wiring(res, **kwargs) if len(res) == 1 and len(outputs) == 1 and 'serial' in res else res)"),
     ("resize_keeps_head", "C13", 3000, INFRA,
      "            slices[dim] = slice(tensor.shape[dim] - size, None)\n            return tensor[*slices]", "            slices[dim] = slice(None, size)\n            return tensor[*slices]"),
     ("resize_no_align", "C13", 3000, INFRA,
